@@ -235,12 +235,12 @@ def part_builder(chk, tier, binary):
     if tier == "quick":
         cases += tlc_cases(chk, "MC_StatsSeq", "CONSTANTS\n TypeSpecs = %s\n MaxCalls = 2\n K = 4\n%s" % (tla_set(specs), GEN_TAIL), "builder cases")
         cases += tlc_cases(chk, "MC_StatsSeq", "CONSTANTS\n TypeSpecs = %s\n MaxCalls = 4\n K = 10\n%s" % (tla_set(specs + [7300]), GEN_TAIL),
-                           "builder cases (simulated)", simulate=150, depth=6)
+                           "builder cases (simulated)", simulate=3, depth=5)
     else:
         cases += tlc_cases(chk, "MC_StatsSeq", "CONSTANTS\n TypeSpecs = %s\n MaxCalls = 2\n K = 6\n%s" % (tla_set(specs), GEN_TAIL), "builder cases")
         cases += tlc_cases(chk, "MC_StatsSeq", "CONSTANTS\n TypeSpecs = %s\n MaxCalls = 1\n K = 10\n%s" % (tla_set(specs + [7300]), GEN_TAIL), "builder cases")
         cases += tlc_cases(chk, "MC_StatsSeq", "CONSTANTS\n TypeSpecs = %s\n MaxCalls = 5\n K = 10\n%s" % (tla_set(specs + [7300]), GEN_TAIL),
-                           "builder cases (simulated)", simulate=1500, depth=7)
+                           "builder cases (simulated)", simulate=40, depth=6)
     seen, uniq = set(), []
     for c in cases:
         k = json.dumps(c, sort_keys=True)
